@@ -137,7 +137,7 @@ def check_fit(case, pre=None):
     w = weights(len(x), case['zero'], case['wpat'])
     well, cond, (Ar, Al) = pre if pre is not None else classify(t, k, x, w)
     if not well:
-        return [('replay:not-well-posed', '')], 'skip', False
+        return [('replay:not-well-posed', '')], 'skip', False, None
     y = rhs_vector(case['rhs'], x, w)
     keep = (x.copy(), y.copy(), w.copy())
     bad = []
@@ -146,68 +146,79 @@ def check_fit(case, pre=None):
             warnings.simplefilter('ignore')
             st, yfit = s.fit(x, y, w)
     except Exception as e:
-        return [('fit:well-posed:exception:%s@%s' % (type(e).__name__, where_raised(e.__traceback__)), repr(e))], 'bad:exception', True
+        return [('fit:well-posed:exception:%s@%s' % (type(e).__name__, where_raised(e.__traceback__)), repr(e))], 'bad:exception', True, None
     if not (_status_kind(st) == 0):
-        return [('fit:well-posed:status!=0', 'status %r (cond %.3g)' % (st, cond))], 'bad:status', True
+        return [('fit:well-posed:status!=0', 'status %r (cond %.3g)' % (st, cond))], 'bad:status', True, None
     c = np.asarray(s.coeff, dtype=np.float64)
-    refs = [_bsp.wlsq(A, y, w)[0] for A in ((Ar, Al) if k == 1 else (Ar,))]
-    scale = max(1.0, float(np.max(np.abs(y))), max(float(np.max(np.abs(r))) for r in refs))
-    tol = (1e-11 + 1e-13 * cond * cond) * scale
-    errs = [float(np.max(np.abs(c - r))) if np.all(np.isfinite(c)) else np.inf for r in refs]
-    ib = int(np.argmin(errs))
-    A = (Ar, Al)[ib] if k == 1 else Ar
-    if not errs[ib] <= tol:
-        bad.append(('fit:coeff!=lstsq', 'max diff %.3g tol %.3g cond %.3g; got %s expected %s' % (errs[ib], tol, cond, c.tolist(), refs[ib].tolist())))
-    else:
-        yf = np.asarray(yfit, dtype=np.float64)
-        g = w > 0
-        if yf.shape != y.shape or not np.all(np.abs(yf - A.dot(refs[ib]))[g] <= tol * 4):
-            bad.append(('fit:yfit!=spline-at-data', 'yfit %s expected %s' % (yf.tolist(), A.dot(refs[ib]).tolist())))
-        if case['rhs'][0] == 'mono' and case['rhs'][1] < k:
-            if not np.all(np.abs(A.dot(c) - y)[g] <= max(tol, 1e-9)):
-                bad.append(('fit:polynomial-not-reproduced', 'degree %d order %d max err %.3g' % (case['rhs'][1], k, np.max(np.abs(A.dot(c) - y)[g]))))
+    yf = np.asarray(yfit, dtype=np.float64)
+    g = w > 0
+    # for order 1 a datum on an interior knot may belong to either neighbouring interval: try both conventions
+    verdicts = []
+    for A in ((Ar, Al) if k == 1 else (Ar,)):
+        ref = _bsp.wlsq(A, y, w)[0]
+        scale = max(1.0, float(np.max(np.abs(y))), float(np.max(np.abs(ref))))
+        tol = (1e-11 + 1e-13 * cond * cond) * scale
+        err = float(np.max(np.abs(c - ref))) if (c.shape == ref.shape and np.all(np.isfinite(c))) else np.inf
+        v = []
+        if not err <= tol:
+            v.append(('fit:coeff!=lstsq', 'max diff %.3g tol %.3g cond %.3g; got %s expected %s' % (err, tol, cond, c.tolist(), ref.tolist())))
+        else:
+            if yf.shape != y.shape or not np.all(np.abs(yf - A.dot(ref))[g] <= tol * 4):
+                v.append(('fit:yfit!=spline-at-data', 'yfit %s expected %s' % (yf.tolist(), A.dot(ref).tolist())))
+            if case['rhs'][0] == 'mono' and case['rhs'][1] < k:
+                if not np.all(np.abs(A.dot(c) - y)[g] <= max(tol, 1e-9)):
+                    v.append(('fit:polynomial-not-reproduced', 'degree %d order %d max err %.3g' % (case['rhs'][1], k, np.max(np.abs(A.dot(c) - y)[g]))))
+        verdicts.append((v, ref))
+    verdicts.sort(key=lambda vr: len(vr[0]))
+    bad.extend(verdicts[0][0])
+    refs = [verdicts[0][1]]
     if not (np.array_equal(x, keep[0]) and np.array_equal(y, keep[1]) and np.array_equal(w, keep[2])):
         bad.append(('fit:input-modified', ''))
     nontrivial = bool(np.any(np.abs(refs[0]) > 1e-9))
-    return bad, ('ok:fit:' + case['rhs'][0] + (':zw' if len(case['zero']) else ':full')) if not bad else 'bad:' + bad[0][0], nontrivial
+    return bad, ('ok:fit:' + case['rhs'][0] + (':zw' if len(case['zero']) else ':full')) if not bad else 'bad:' + bad[0][0], nontrivial, c
 
 
-def check_linear(case, pre=None):
-    """Response to the generic vector == sum of responses to unit vectors; zero-weight perturbation changes nothing."""
+def linear_verdict(case, cond, cg, cp, csum):
+    """cg/cp: coefficients for the generic / perturbed vector; csum: sum_i y_i * coefficients for e_i."""
+    bad = []
+    tol = (1e-11 + 1e-13 * cond * cond) * max(1.0, float(np.max(np.abs(cg)))) * 10
+    if not np.max(np.abs(csum - cg)) <= tol:
+        bad.append(('fit:not-linear-in-y', 'sum of unit responses differs by %.3g' % np.max(np.abs(csum - cg))))
+    if len(case['zero']) and not np.max(np.abs(cp - cg)) <= tol:
+        bad.append(('fit:depends-on-zero-weight-y', 'diff %.3g' % np.max(np.abs(cp - cg))))
+    return bad, 'ok:linear' + (':zw' if len(case['zero']) else ':full') if not bad else 'bad:' + bad[0][0]
+
+
+def check_linear(case):
+    """Replay form: response to the generic vector == sum of responses to unit vectors; zero-weight y irrelevant."""
     x, s = make_sset(case)
     k = case['k']
     t = np.asarray(s.breakpoints, dtype=np.float64)
     n = len(x)
     w = weights(n, case['zero'], case['wpat'])
-    well, cond, _A = pre if pre is not None else classify(t, k, x, w)
+    well, cond, _A = classify(t, k, x, w)
     if not well:
-        return [('replay:not-well-posed', '')], 'skip', False
+        return [('replay:not-well-posed', '')]
 
     def run(y):
         _x, s2 = make_sset(case)
         with warnings.catch_warnings():
             warnings.simplefilter('ignore')
             st, _yf = s2.fit(x, y, w)
-        return st, np.asarray(s2.coeff, dtype=np.float64)
+        return np.asarray(s2.coeff, dtype=np.float64)
     try:
         yg = rhs_vector(['generic'], x, w)
-        stg, cg = run(yg)
-        stp, cp = run(rhs_vector(['perturbed'], x, w))
-        acc = np.zeros_like(cg)
+        cg = run(yg)
+        cp = run(rhs_vector(['perturbed'], x, w))
+        csum = np.zeros_like(cg)
         for i in range(n):
-            e = np.zeros(n)
-            e[i] = 1.0
-            _st, ci = run(e)
-            acc += yg[i] * ci
+            if w[i] > 0:
+                e = np.zeros(n)
+                e[i] = 1.0
+                csum += yg[i] * run(e)
     except Exception as e:
-        return [('fit:well-posed:exception:%s@%s' % (type(e).__name__, where_raised(e.__traceback__)), repr(e))], 'bad:exception', True
-    bad = []
-    tol = (1e-11 + 1e-13 * cond * cond) * max(1.0, float(np.max(np.abs(cg)))) * 10
-    if not np.max(np.abs(acc - cg)) <= tol:
-        bad.append(('fit:not-linear-in-y', 'sum of unit responses differs by %.3g' % np.max(np.abs(acc - cg))))
-    if len(case['zero']) and not np.max(np.abs(cp - cg)) <= tol:
-        bad.append(('fit:depends-on-zero-weight-y', 'diff %.3g' % np.max(np.abs(cp - cg))))
-    return bad, 'ok:linear' + (':zw' if len(case['zero']) else ':full') if not bad else 'bad:' + bad[0][0], True
+        return [('fit:well-posed:exception:%s@%s' % (type(e).__name__, where_raised(e.__traceback__)), repr(e))]
+    return linear_verdict(case, cond, cg, cp, csum)[0]
 
 
 # ------------------------------------------------------------------ part I
@@ -383,19 +394,23 @@ def tasks(tier):
                 t.append({'part': 'C', 'bw': bw, 'n': n})
     for bw in (4, 5, 6):
         t.append({'part': 'C', 'bw': bw, 'pattern': True})
-    ns = [8, 10, 12] if T else [8, 10]
-    for n in ns:
+    for n in ([8, 10, 12] if T else [8, 10]):
         for fam in ('uni', 'clu'):
             for k in range(1, 6):
                 for kn in KNOTS:
-                    if n >= 12:
+                    d = {'part': 'F', 'fam': fam, 'n': n, 'k': k, 'knots': kn, 'tier': tier}
+                    if n == 12:
                         for z0 in range(4):
-                            t.append({'part': 'F', 'fam': fam, 'n': n, 'k': k, 'knots': kn, 'maxzero': n, 'z0': z0, 'tier': tier})
+                            t.append(dict(d, maxzero=n, z0=z0, wpats=[0]))
+                    elif n == 8 or T:
+                        t.append(dict(d, maxzero=n, wpats=[0, 1]))
                     else:
-                        t.append({'part': 'F', 'fam': fam, 'n': n, 'k': k, 'knots': kn, 'maxzero': n if (T or n == 8) else 3, 'tier': tier})
+                        t.append(dict(d, maxzero=2, runs=True, wpats=[0, 1]))
     for fam in ('uni', 'clu'):
         for k in range(1, 6):
-            t.append({'part': 'F', 'fam': fam, 'n': 16, 'k': k, 'knots': None, 'maxzero': 2, 'runs': True, 'tier': tier})
+            for kn in (KNOTS if T else KNOTS[1::2]):
+                t.append({'part': 'F', 'fam': fam, 'n': 16, 'k': k, 'knots': kn, 'maxzero': 2 if T else 1, 'runs': True,
+                          'wpats': [0, 1] if T else [0], 'tier': tier})
     return t
 
 
@@ -440,7 +455,7 @@ def run_task(task):
     # ---- fits
     fam, n, k = task['fam'], task['n'], task['k']
     x = data_x(fam, n)
-    knots = [task['knots']] if task['knots'] is not None else KNOTS
+    knots = [task['knots']]
     subsets = []
     for r in range(0, task['maxzero'] + 1):
         for z in itertools.combinations(range(n), r):
@@ -458,8 +473,8 @@ def run_task(task):
         _x, s0 = make_sset(dict(base0))
         t = np.asarray(s0.breakpoints, dtype=np.float64)
         for z in subsets:
-            for wpat in (0, 1):
-                if wpat == 1 and len(z) > 4 and task.get('tier') != 'thorough':
+            for wpat in task['wpats']:
+                if wpat == 1 and len(z) > 2 and task.get('tier') != 'thorough':
                     continue
                 w = weights(n, z, wpat)
                 pre = classify(t, k, x, w)
@@ -472,16 +487,25 @@ def run_task(task):
                         acc.violation(sig, case, msg)
                     continue
                 rhs = [['unit', i] for i in range(n) if w[i] > 0] + [['mono', d] for d in range(k)] + [['generic'], ['perturbed']]
+                got = {}
+                yg = rhs_vector(['generic'], x, w)
+                csum = 0.0
                 for r in rhs:
                     case = dict(base, part='F', rhs=r)
-                    bad, out, nt = check_fit(case, pre)
+                    bad, out, nt, c = check_fit(case, pre)
                     acc.case(_bsp.ckey(case), nt, out, sample=case)
                     for sig, msg in bad:
                         acc.violation(sig, case, msg)
-                if wpat == 0 or len(z) <= 1:
+                    if c is None:
+                        csum = None
+                    elif r[0] == 'unit' and csum is not None:
+                        csum = csum + yg[r[1]] * c
+                    else:
+                        got[r[0]] = c
+                if csum is not None and 'generic' in got and 'perturbed' in got:
                     case = dict(base, part='L')
-                    bad, out, nt = check_linear(case, pre)
-                    acc.case(_bsp.ckey(case), nt, out, sample=None)
+                    bad, out = linear_verdict(case, pre[1], got['generic'], got['perturbed'], csum)
+                    acc.case(_bsp.ckey(case), True, out, sample=None)
                     for sig, msg in bad:
                         acc.violation(sig, case, msg)
     return acc
@@ -493,5 +517,5 @@ def replay(case):
     if case['part'] == 'I':
         return check_illposed(case)[0]
     if case['part'] == 'L':
-        return check_linear(case)[0]
+        return check_linear(case)
     return check_fit(case)[0]
